@@ -41,6 +41,8 @@ def candidates(rng, n):
                 dv["ts"] = [core.cp("fallback")]            # default WITH to_string: prints the literal, not the inner value
             elif r < 0.4:
                 dv["ser"] = [core.cp("ident"), core.cp("id")][: rng.choice([1, 2])]    # serialize only: still forwards to the inner value
+            if ty == "String" and not named and rng.random() < 0.25:
+                dv["dwith"] = "dw_string"              # default_with on the catch-all: the captured input is what it holds
             vs.insert(rng.randint(0, len(vs)), dv)
         # transparent variants
         for j in range(rng.choice([0, 1, 1, 2])):
@@ -48,6 +50,8 @@ def candidates(rng, n):
             ty = rng.choice(opts)[0]
             named = rng.random() < 0.4
             tv = variant(["Wrap", "Wrap2"][j], "named" if named else "tuple", [field(ty, rng.choice(SC.FIELD_NAMES) if named else "")], transp=True)
+            if rng.random() < 0.25:
+                tv["ts"] = [core.cp("shown%d" % j)]      # to_string next to `transparent`: printing still forwards the inner value
             if rng.random() < 0.3:
                 tv["ser"] = [core.cp("tr%d" % j)]        # a spelling for EnumString next to `transparent`: printing still forwards the inner value
             vs.insert(rng.randint(0, len(vs)), tv)
